@@ -12,6 +12,8 @@
   compares the paired real runs byte-wise).
 -/
 import CTM.Lemmas.LevelLoop
+import CTM.Lemmas.Markers
+import CTM.Lemmas.Tree
 
 namespace CTM.C17
 open CTM CTM.LevelLoop
@@ -348,5 +350,149 @@ example : (∃ outA, mapPipeline exTree { dropLevel := some 1, flatten := false,
   drop_both_succeed exTree exDropped { chunkSize := 2, nProc := 2 } exVote 1 2 [0] [] [7, 3, 9]
     [0, 1, 2] [1, 0] (by rfl) rfl exTree_wf (exVote_ok _) rfl (by decide) (by decide)
     (by decide) (by decide)
+
+/-- flatten TOGETHER with drop_level (the combination `_run_mapping` allows):
+the level is dropped first, then the tree is flattened — the run tree is the
+one-level tree of the same leaves either way, so the whole output equals that of
+the run with flatten alone. -/
+theorem flatten_ignores_drop {κ} (t0 t' : RawTree) (cfg : Config) (vote : Oracle κ)
+    (l cl : Level) (pre post : List Level)
+    (ids : List CellId) (cells : List κ) (order : List Nat)
+    (hdrop : t0.dropLevel l = .ok t') (hs : t0.hierarchy = pre ++ l :: cl :: post)
+    (hwf0 : wfb t0 = true) (hv : VoteOK t0.flatten vote)
+    (hlen : ids.length = cells.length) (hnd : ids.Nodup)
+    (hproc : 1 ≤ cfg.nProc) (hcs : 1 ≤ cfg.chunkSize)
+    (horder : order.Perm (List.range
+      (chunks cells.length (effChunk cells.length cfg.nProc cfg.chunkSize)).length)) :
+    mapPipeline t0 { cfg with dropLevel := some l, flatten := true } vote ids cells order =
+      mapPipeline t0 { cfg with dropLevel := none, flatten := true } vote ids cells order :=
+  mapPipeline_flatten_ignores_drop t0 t' cfg vote l cl pre post ids cells order hdrop hs hwf0 hv
+    hlen hnd hproc hcs horder
+
+example : mapPipeline exTree { dropLevel := some 1, flatten := true, chunkSize := 2, nProc := 2 } exVote
+      [7, 3, 9] [0, 1, 2] [1, 0] =
+    mapPipeline exTree { dropLevel := none, flatten := true, chunkSize := 2, nProc := 2 } exVote
+      [7, 3, 9] [0, 1, 2] [1, 0] :=
+  flatten_ignores_drop exTree exDropped { chunkSize := 2, nProc := 2 } exVote 1 2 [0] [] [7, 3, 9]
+    [0, 1, 2] [1, 0] (by rfl) rfl exTree_wf (exVote_ok _) rfl (by decide) (by decide) (by decide)
+    (by decide)
+
+/-- the C17 statement for flatten AND drop_level: the leaf level equals the run
+on the one-level reference (`t0.flatten`), every coarser level of the stored
+hierarchy — the dropped one included — is the copy of the level below with the
+stored tree's parent as assignment, flagged inferred. -/
+theorem flatten_drop_eq {κ} (t0 t' : RawTree) (cfg : Config) (vote : Oracle κ)
+    (l cl ll : Level) (pre post : List Level)
+    (ids : List CellId) (cells : List κ) (order : List Nat)
+    (hdrop : t0.dropLevel l = .ok t') (hs : t0.hierarchy = pre ++ l :: cl :: post)
+    (hleaf : t0.leafLevel = some ll) (hwf0 : wfb t0 = true) (hv : VoteOK t0.flatten vote)
+    (hlen : ids.length = cells.length) (hnd : ids.Nodup)
+    (hproc : 1 ≤ cfg.nProc) (hcs : 1 ≤ cfg.chunkSize)
+    (horder : order.Perm (List.range
+      (chunks cells.length (effChunk cells.length cfg.nProc cfg.chunkSize)).length))
+    (outA outB : List Record)
+    (hA : mapPipeline t0 { cfg with dropLevel := some l, flatten := true } vote ids cells order
+      = .ok outA)
+    (hB : mapPipeline t0.flatten { cfg with dropLevel := none, flatten := false } vote ids cells order
+      = .ok outB)
+    (i : Nat) (id : CellId) (c : κ) (hid : ids[i]? = some id) (hc : cells[i]? = some c) :
+    ∃ a b, outA[i]? = some a ∧ outB[i]? = some b ∧ a.cellId = b.cellId ∧
+      a.levels.lookup ll = b.levels.lookup ll ∧ (b.levels.lookup ll).isSome ∧
+      ∀ cp ∈ pairsOf t0.hierarchy.reverse,
+        ∃ ec pn, a.levels.lookup cp.1 = some ec ∧
+          t0.childToParent cp.1 ec.assignment = some pn ∧
+          a.levels.lookup cp.2 = some (inferred ec pn) := by
+  rw [flatten_ignores_drop t0 t' cfg vote l cl pre post ids cells order hdrop hs hwf0 hv hlen hnd
+    hproc hcs horder] at hA
+  exact flatten_eq t0 cfg vote ll ids cells order hleaf hwf0 hv hlen hnd hproc hcs horder outA outB
+    hA hB i id c hid hc
+
+/-- both runs of `flatten_drop_eq` succeed -/
+theorem flatten_drop_both_succeed {κ} (t0 t' : RawTree) (cfg : Config) (vote : Oracle κ)
+    (l cl ll : Level) (pre post : List Level)
+    (ids : List CellId) (cells : List κ) (order : List Nat)
+    (hdrop : t0.dropLevel l = .ok t') (hs : t0.hierarchy = pre ++ l :: cl :: post)
+    (hleaf : t0.leafLevel = some ll) (hwf0 : wfb t0 = true) (hv : VoteOK t0.flatten vote)
+    (hlen : ids.length = cells.length) (hnd : ids.Nodup)
+    (hproc : 1 ≤ cfg.nProc) (hcs : 1 ≤ cfg.chunkSize)
+    (horder : order.Perm (List.range
+      (chunks cells.length (effChunk cells.length cfg.nProc cfg.chunkSize)).length)) :
+    (∃ outA, mapPipeline t0 { cfg with dropLevel := some l, flatten := true } vote ids cells order
+      = .ok outA) ∧
+    (∃ outB, mapPipeline t0.flatten { cfg with dropLevel := none, flatten := false } vote ids cells
+      order = .ok outB) := by
+  rw [flatten_ignores_drop t0 t' cfg vote l cl pre post ids cells order hdrop hs hwf0 hv hlen hnd
+    hproc hcs horder]
+  exact flatten_both_succeed t0 cfg vote ll ids cells order hleaf hwf0 hv hlen hnd hproc hcs horder
+
+example : (∃ outA, mapPipeline exTree { dropLevel := some 1, flatten := true, chunkSize := 2, nProc := 2 }
+      exVote [7, 3, 9] [0, 1, 2] [1, 0] = .ok outA) ∧
+    (∃ outB, mapPipeline exTree.flatten { dropLevel := none, flatten := false, chunkSize := 2, nProc := 2 }
+      exVote [7, 3, 9] [0, 1, 2] [1, 0] = .ok outB) :=
+  flatten_drop_both_succeed exTree exDropped { chunkSize := 2, nProc := 2 } exVote 1 2 2 [0] []
+    [7, 3, 9] [0, 1, 2] [1, 0] (by rfl) rfl (by decide) exTree_wf (exVote_ok _) rfl (by decide)
+    (by decide) (by decide) (by decide)
+
+/-! ### "with the union of all marker lists" — the marker table under flatten -/
+
+/-- **the marker table of a flattened run does not depend on `drop_level`**
+(what seeded change C17_1 broke): whatever level is dropped (present, absent,
+none), the table after the flatten block is the single root list made of EVERY
+list of the table — strictly increasing (sorted, no duplicate) and containing
+exactly the genes that occur in some list. -/
+theorem flatten_markers_indep_of_drop (t0 : RawTree) (cfg : Config) (lk : Markers.Lookup)
+    (d d' : Option Level) (t t' : RawTree) (lk1 lk2 : Markers.Lookup)
+    (h1 : mapSetup t0 { cfg with flatten := true, dropLevel := d } lk = .ok (t, lk1))
+    (h2 : mapSetup t0 { cfg with flatten := true, dropLevel := d' } lk = .ok (t', lk2)) :
+    lk1 = lk2 ∧ ∃ genes, lk1 = [(none, genes)] ∧ genes.Pairwise (· < ·) ∧
+      ∀ g, g ∈ genes ↔ ∃ e ∈ lk, g ∈ e.2 := by
+  have e1 : lk1 = Markers.flattenLookup lk := by
+    unfold mapSetup at h1
+    split at h1
+    · cases h1
+    · cases h1; rfl
+  have e2 : lk2 = Markers.flattenLookup lk := by
+    unfold mapSetup at h2
+    split at h2
+    · cases h2
+    · cases h2; rfl
+  refine ⟨e1.trans e2.symm, ?_⟩
+  rw [e1]
+  exact Markers.flattenLookup_spec lk
+
+/-- a table in which the middle level's parents and a key outside the taxonomy
+own genes nobody else lists -/
+def exTable : Markers.Lookup :=
+  [(none, [4, 1]), (some (0, 10), [1, 2]), (some (1, 21), [7, 2]), (some (1, 20), [8]),
+   (some (5, 99), [9, 4])]
+
+example : ∃ t t', mapSetup exTree { flatten := true, dropLevel := some 1 } exTable
+      = .ok (t, [(none, [1, 2, 4, 7, 8, 9])]) ∧
+    mapSetup exTree { flatten := true, dropLevel := none } exTable
+      = .ok (t', [(none, [1, 2, 4, 7, 8, 9])]) :=
+  ⟨_, _, by rfl, by rfl⟩
+
+/-- the same statement on group E's full model of the marker stage
+(`Markers.stage`: cache creation, reconciliation, the gene list every consulted
+parent votes on, the reported table), which the C08 suite compares with the
+hook trace: for a validated stored tree, a flattened run with `drop_level = l`
+(`l` any non-leaf level) has exactly the marker stage of the flattened run
+without `drop_level`. -/
+theorem flatten_stage_indep_of_drop (t0 t' : RawTree) (w : RawTree.WF t0) (lk : Markers.Lookup)
+    (R Q : List Markers.Gene) (m : Nat) (i : Nat) (hi : i + 1 < t0.hierarchy.length)
+    (hdrop : t0.dropLevel (t0.hierarchy[i]'(by omega)) = .ok t') :
+    Markers.stage t0 lk R Q m (some (t0.hierarchy[i]'(by omega))) true =
+      Markers.stage t0 lk R Q m none true := by
+  have hfl := RawTree.flatten_drop_eq w hi hdrop
+  have hc : t0.hierarchy.contains (t0.hierarchy[i]'(by omega)) = true := by
+    simp
+  simp only [Markers.stage, hc, if_true, hdrop, hfl]
+
+theorem exTree_WF : RawTree.WF exTree :=
+  ⟨by rfl, by decide, by decide, RawTree.dictOK_of_b (by decide)⟩
+
+example : Markers.stage exTree exTable [9, 8, 7, 4, 2, 1] [1, 2, 4, 7, 8, 9, 11] 1 (some 1) true =
+    Markers.stage exTree exTable [9, 8, 7, 4, 2, 1] [1, 2, 4, 7, 8, 9, 11] 1 none true :=
+  flatten_stage_indep_of_drop exTree exDropped exTree_WF exTable _ _ 1 1 (by decide) (by rfl)
 
 end CTM.C17
